@@ -522,8 +522,16 @@ def judge_documents(res, cs, cr):
         res.violation(f"{PROP}/fault/{kind}:{stage}:{cr.death['key']}", f"op {json.dumps(cs['ops'][k], ensure_ascii=False)[:300]}\n" + cr.death['text'][-2500:], cs)
         return
     if cr.hang:
+        k = len(cr.events)
+        load_at = (1 if kind == 'json-model' else 0)
+        if cs['meta'].get('load') and k > load_at:
+            # the load call itself returned; a LATER call (recalculation, serialisation of what was calculated) on an accepted
+            # document is bounded by documented resource limits, not by wall-clock: observed and counted, like post-load faults
+            res.count('post_load_slow')
+            res.count('inconclusive')
+            return
         res.count('hangs')
-        res.violation(f'{PROP}/hang@{kind}', 'a call on a loaded document exceeded the watchdog twice', cs)
+        res.violation(f'{PROP}/hang@{kind}', 'the load of a document (or a call of the producing history) exceeded the watchdog twice', cs)
         return
     if not cs['meta'].get('load'):
         res.count('documents_produced')
